@@ -114,7 +114,14 @@ static void RunOne(Make make, Dump dump, int multiline, int comments, int base, 
       // which leaves the real accessors can read (`!ok` otherwise): the buffer has its full size
       std::string d;
       dump(v, "", &d);
-      std::cout << " d1=" << Hex(d);
+      std::cout << " d1=" << Hex(d) << std::flush;
+      // the partial text read back into a zeroed buffer (compared with the reader model only:
+      // the statement makes no claim about re-reading the text of a view that is not Ok)
+      auto w = make(b2.get(), n);
+      bool upd = ::emboss::UpdateFromText(w, ::emboss::WriteToString(v, o.WithAllowPartialOutput(true)));
+      std::string d2;
+      dump(w, "", &d2);
+      std::cout << " upd=" << upd << " d2=" << Hex(d2);
     }
     std::cout << "\n";
     return;
@@ -392,13 +399,20 @@ def wval_tokens(node, parsed, orders):
         return ["i", "i64", str(node[1])]
     if kind == "array":
         items = node[1]
+        # ("unreadable", scalar): an atomic element that is not Ok (allow_partial_output) = `u`
+        written = [it for it in items if it[0] != "unreadable"]
         got = [] if parsed is None or parsed[0] != "array" else [x for _, x in parsed[1]]
-        if parsed is not None and len(got) != len(items):
+        if parsed is not None and len(got) != len(written):
             raise NoWval()
-        asc = bool(items) and items[0][0] == "scalar" and items[0][1].kind in ("uint", "int") and items[0][1].bits == 8
+        asc = bool(written) and written[0][0] == "scalar" and written[0][1].kind in ("uint", "int") and written[0][1].bits == 8
         out = ["a", "1" if asc else "0", str(len(items))]
-        for k, it in enumerate(items):
+        k = 0
+        for it in items:
+            if it[0] == "unreadable":
+                out.append("u")
+                continue
             out += wval_tokens(it, got[k] if parsed is not None else None, orders)
+            k += 1
         return out
     if kind == "struct":
         fields = list(node[1])
@@ -409,6 +423,9 @@ def wval_tokens(node, parsed, orders):
         got = {} if parsed is None or parsed[0] != "struct" else dict(parsed[1])
         out = ["s", str(len(fields))]
         for n, x in fields:
+            if x[0] == "unreadable":
+                out += [I.hexs(n), "u"]
+                continue
             out += [I.hexs(n), "1" if x[0] == "comment" else "0"]
             out += wval_tokens(x, got.get(n) if parsed is not None else None, orders)
         return out
@@ -768,6 +785,39 @@ def judge_partial_content(prep, st, pb, opt, line, stats):
     return problems
 
 
+def add_partial_model_ops(prep, st, pb, opt, line, stats, wvals, rvals, shapes):
+    """Lean models on the text of a view that is not Ok by content (allow_partial_output): the writer
+    model (value tree with the unreadable leaves as `skip` nodes) must give the real text exactly
+    (`WVAL`), the reader model must accept / reject the text and write the values the real
+    UpdateFromText does (`RVAL`; static shapes, re-readable layouts)."""
+    kv = dict(x.split("=", 1) for x in line.split(" ") if "=" in x)
+    if "ptext" not in kv:
+        return
+    m, c, b, g = opt
+    text = I.unhex(kv["ptext"])
+    parsed = None
+    if (m, c) != LAYOUT_NOT_RR:
+        try:
+            parsed, _ = parse_text(text)
+        except ParseError:
+            return
+    try:
+        tree = ("struct", attach_struct_names(st, pb.tree), st.name)
+        toks = wval_tokens(tree, parsed, prep["orders"])
+        wvals.append(("WVAL %d %d %d %d %s %s" % (m, c, b, g, I.hexs("  ") if m else "-", " ".join(toks)), text,
+                      st.name, opt))
+        stats["partial_by_content_wval"] = stats.get("partial_by_content_wval", 0) + 1
+    except NoWval:
+        stats["wval_skipped_float"] = stats.get("wval_skipped_float", 0) + 1
+    if (m, c) != LAYOUT_NOT_RR and "upd" in kv and "d2" in kv:
+        n0 = len(rvals)
+        add_rval(rvals, shapes, stats, st, {"text": kv["ptext"], "upd": kv["upd"], "d2": kv["d2"]})
+        if len(rvals) > n0:
+            stats["partial_by_content_rval"] = stats.get("partial_by_content_rval", 0) + 1
+            if kv["upd"] == "1":
+                stats["partial_by_content_text_reread_ok"] = stats.get("partial_by_content_text_reread_ok", 0) + 1
+
+
 def judge(prep, st, built, opt, line, stats, int_checks, tok_texts, wvals=None):
     """Evaluates one driver answer against the property statement.
     Returns (problems, parsed tree or None, kv)."""
@@ -946,6 +996,8 @@ def run_modules(chk, mods, buffers_per_struct, r, model_ok, tier, compiler="clan
             if trunc == "content":
                 pp = judge_partial_content(prep, st, built, opt, ans, stats)
                 chk.nontrivial("%s/%s/not-ok-by-content/%s/%r" % (mod.name, st.name, bytes(built.buf).hex(), opt))
+                if model_ok and not pp:
+                    add_partial_model_ops(prep, st, built, opt, ans, stats, wvals, rvals, shapes)
                 if pp:
                     sig = (st.name, "content", pp[0][:60])
                     if sig not in reported and sum(1 for x in reported if x[:2] == sig[:2]) < 3:
